@@ -50,7 +50,7 @@ def init (ps : List String) : Option St :=
     let hv ← parseBool hv; let ht ← parseBool ht; let hm ← parseBool hm
     let d ← dim.toNat?
     let mk ← MetricKind.parse metric
-    pure { kind := mk, exact := vkind == "flat", dim := d, s := Hybrid.init hv ht hm 0, seen := [], lastAuto := 0 }
+    pure { kind := mk, exact := vkind == "flat" || vkind == "ivf" || vkind == "hnsw", dim := d, s := Hybrid.init hv ht hm 0, seen := [], lastAuto := 0 }
   | _ => none
 
 def parseText (s : String) : Option String := if s == "-" then none else some s
@@ -121,6 +121,13 @@ def op (st : St) (toks : List String) : St × String :=
           else (st, s!"ok n={res.length}")
         | _, _ => (st, "BADOP probevec hits")
       | _ => (st, s!"SPECFAIL probevec[{via}] failed: {post}")
+  | "probedup" :: rest =>
+    -- "<sum hits…> | <max hits…>": equal unless some id is stored more than once
+    let a := (rest.takeWhile (· != "|")).filterMap parseHit32
+    let b := ((rest.dropWhile (· != "|")).drop 1).filterMap parseHit32
+    let same := a.length == b.length && a.all fun h => b.contains h
+    if same then (st, "ok") else
+      (st, s!"SPECFAIL an id is stored more than once (sum vs max aggregation differ): sum={showHits32 a} max={showHits32 b}")
   | ["probetxt", via, w] =>
     if st.s.txt.isNone then
       (st, if post.head? == some "err" then "ok err" else "SPECFAIL text query without text index must fail")
